@@ -58,8 +58,13 @@ def _underlying_function(obj):
         if hasattr(obj, "py_func"):
             obj = obj.py_func
             continue
-        if not inspect.isfunction(obj) and hasattr(obj, "method") and inspect.isfunction(getattr(obj, "method")):
-            obj = obj.method  # pde.tools.cache.cached_method style wrappers
+        hit = False
+        for attr in ("method", "func", "fget", "_func", "function"):
+            if not inspect.isfunction(obj) and inspect.isfunction(getattr(obj, attr, None)):
+                obj = getattr(obj, attr)  # pde.tools.cache.cached_method / cached_property style wrappers
+                hit = True
+                break
+        if hit:
             continue
         break
     if not inspect.isfunction(obj):
@@ -67,7 +72,7 @@ def _underlying_function(obj):
     return obj
 
 
-def patch_function(target: str, old: str, new: str):
+def patch_function(target: str, old, new=None):
     """replace ``old`` by ``new`` in the source of one function of /repo (in this process only)
 
     The function's code object is swapped in place, so every existing reference sees the
@@ -76,9 +81,12 @@ def patch_function(target: str, old: str, new: str):
     mod, _parent, obj = _resolve(target)
     fn = _underlying_function(obj)
     src = textwrap.dedent(inspect.getsource(fn))
-    if src.count(old) != 1:
-        raise StaleCanary(f"anchor {old!r} found {src.count(old)} times in {target}")
-    src2 = src.replace(old, new)
+    pairs = [(old, new)] if isinstance(old, str) else list(old)
+    src2 = src
+    for o, n in pairs:
+        if src2.count(o) != 1:
+            raise StaleCanary(f"anchor {o!r} found {src2.count(o)} times in {target}")
+        src2 = src2.replace(o, n)
     tree = ast.parse(src2)
     fdef = tree.body[0]
     assert isinstance(fdef, (ast.FunctionDef, ast.AsyncFunctionDef))
@@ -128,8 +136,11 @@ def _run_case(args):
         mod = _import_check(check_id)
         if canary:
             try:
+                grouped = {}
                 for tgt, old, new in canary.get("patch", []):
-                    patch_function(tgt, old, new)
+                    grouped.setdefault(tgt, []).append((old, new))
+                for tgt, pairs in grouped.items():
+                    patch_function(tgt, pairs)
             except StaleCanary as e:
                 out.update(status="stale", msg=str(e), wall_s=time.time() - t0)
                 return out
